@@ -1,6 +1,7 @@
 package main
 
 import (
+	ipfslog "berty.tech/go-ipfs-log"
 	"context"
 	"encoding/json"
 	"fmt"
@@ -274,6 +275,15 @@ func c13Specs(r *Run) []c13Spec {
 			specs = append(specs, sp)
 		}
 	}
+	// a fetch that failed before the save (the block of one ancestor could not be had): the
+	// saved queue has to carry the failed hash, so that the reloaded store resumes it
+	nf := 2
+	if r.Tier == "thorough" {
+		nf = 9
+	}
+	for k := 0; k < nf; k++ {
+		specs = append(specs, c13Spec{Typ: types[k%3], Shape: "failed", Class: "s100", Size: 100, Count: 1, Len: 1 + r.Rng.Intn(2), NHeads: 1})
+	}
 	// the empty log, once per type
 	for _, t := range types {
 		specs = append(specs, c13Spec{Typ: t, Shape: "empty", Class: "s0"})
@@ -434,7 +444,7 @@ func c13Reopen(s *Scen, i int) error {
 
 func c13Case(r *Run, ci int, sp c13Spec) error {
 	ctx := context.Background()
-	nrep := map[string]int{"empty": 1, "chain": 1, "fork": 2, "multiwriter": 3, "replicated": 2, "parked": 3}[sp.Shape]
+	nrep := map[string]int{"empty": 1, "chain": 1, "fork": 2, "multiwriter": 3, "replicated": 2, "parked": 3, "failed": 3}[sp.Shape]
 	s, err := NewScen(nrep, sp.Typ, nil)
 	if err != nil {
 		return err
@@ -538,6 +548,34 @@ func c13Case(r *Run, ci int, sp c13Spec) error {
 		// let the other workers reach their resting points
 		c13Calm(s.Stores[1])
 	}
+	var failedEntry ipfslog.Entry
+	if sp.Shape == "failed" {
+		// replica 1 holds local entries; it is announced the head of replica 0's chain while the
+		// block of that head's parent cannot be had: the parent's fetch fails, the rest arrives
+		// (through the references of the head).  The block is available again afterwards.
+		saver = 1
+		if err := c13WriteChain(r, s, 1, sp, true, "l"); err != nil {
+			return err
+		}
+		sp0 := sp
+		sp0.Len = 3 + r.Rng.Intn(3)
+		if err := c13WriteChain(r, s, 0, sp0, false, "a"); err != nil {
+			return err
+		}
+		vals := s.Stores[0].OpLog().Values().Slice()
+		victim := vals[len(vals)-2]
+		s.Reps[1].API.FailGet(victim.GetHash().String(), true)
+		if err := s.SyncHeads(1, vals[len(vals)-1:]); err != nil {
+			return err
+		}
+		if !s.Settle() {
+			r.AddDirect("hang:sync", "replication with a failing fetch did not settle", map[string]interface{}{"case": ci, "state": sim.LastSettleState})
+		}
+		if _, ok := s.Stores[1].OpLog().Get(victim.GetHash()); ok {
+			return fmt.Errorf("failed shape: the entry whose fetch was to fail is in the log")
+		}
+		failedEntry = victim
+	}
 	if sp.Reload {
 		if err := c13Reopen(s, saver); err != nil {
 			return err
@@ -578,7 +616,15 @@ func c13Case(r *Run, ci int, sp c13Spec) error {
 	// replica that never saw anything is given exactly the saved heads and the queued
 	// entries; its state at rest is what the reloaded store has to show.
 	expect := saved
-	if queued > 0 {
+	if failedEntry != nil && saveOut == c13Ok {
+		// (whatever the saved queue says: the saved state stands for the saved log plus the entry
+		// whose fetch had failed and everything behind it)
+		ref := len(s.Stores) - 1
+		heads := append(st.OpLog().Heads().Slice(), failedEntry)
+		if err := s.SyncHeads(ref, heads); err != nil {
+			return err
+		}
+	} else if queued > 0 {
 		ref := len(s.Stores) - 1
 		if sp.Shape != "parked" {
 			return fmt.Errorf("non-empty queue saved outside the parked scenario")
@@ -602,7 +648,7 @@ func c13Case(r *Run, ci int, sp c13Spec) error {
 	if !s.Settle() {
 		r.AddDirect("hang:sync", "replication did not settle", map[string]interface{}{"case": ci, "state": sim.LastSettleState})
 	}
-	if queued > 0 {
+	if queued > 0 || (failedEntry != nil && saveOut == c13Ok) {
 		expect = c13Observe(s, s.Stores[len(s.Stores)-1])
 	}
 	loadOut, loadMsg := c13NotRun, ""
@@ -623,6 +669,18 @@ func c13Case(r *Run, ci int, sp c13Spec) error {
 		}
 		if !s.Settle() {
 			r.AddDirect("hang:snapshot-load", "store did not settle after LoadFromSnapshot", map[string]interface{}{"case": ci, "state": sim.LastSettleState})
+		}
+		if failedEntry != nil {
+			// the block is available again only now, and the same head is announced once more:
+			// the reloaded store knows from the saved queue what it still has to fetch
+			s.Reps[saver].API.FailGet(failedEntry.GetHash().String(), false)
+			vals := s.Stores[0].OpLog().Values().Slice()
+			if err := s.SyncHeads(saver, vals[len(vals)-1:]); err != nil {
+				return err
+			}
+			if !s.Settle() {
+				r.AddDirect("hang:sync", "replication after the reload did not settle", map[string]interface{}{"case": ci, "state": sim.LastSettleState})
+			}
 		}
 		got = c13Observe(s, st)
 	}
@@ -651,6 +709,11 @@ func c13Case(r *Run, ci int, sp c13Spec) error {
 		for k := 0; k < g.n; k++ {
 			tasks = append(tasks, fmt.Sprintf("(%s, %s)", sim.CoqN(len(tasks)+1), sim.CoqN(g.st)))
 		}
+	}
+	if failedEntry != nil {
+		// the task whose fetch failed (state 3: neither waiting, nor being fetched, nor fetched)
+		tasks = append(tasks, fmt.Sprintf("(%s, 3%%N)", sim.CoqN(len(tasks)+1)))
+		r.Count("failed fetch in the task table at save")
 	}
 	qn, tn := queued, total
 	if qn < 0 {
